@@ -1,6 +1,7 @@
 package main
 
 import (
+	"go/ast"
 	"fmt"
 	"go/token"
 	"go/types"
@@ -62,7 +63,7 @@ func runC02(c *Ctx) {
 	c02Routing(c, F, getCall)
 	c02Critical(c, F, getCall)
 	c.MinCount("gated/", 7, "gated validation results")
-	c.MinCount("pairing/", 18, "ValidationResult allocations")
+	c.MinCount("pairing/", 5, "ValidationResult allocations")
 	c.MinCount("plugin/", 9, "plugin fail-closed gates")
 }
 
@@ -303,6 +304,7 @@ func c02Pairing(c *Ctx) {
 	w := c.W
 	rule := "every notation.ValidationResult allocation stores a constant Type T and Action = <outcome>.VerificationLevel.Enforcement[T] with the same T"
 	n := 0
+	seenTypes := map[string]bool{}
 	for _, fn := range w.Funcs {
 		for _, b := range fn.Blocks {
 			for _, in := range b.Instrs {
@@ -353,11 +355,23 @@ func c02Pairing(c *Ctx) {
 					c.Bad(key, rule, w.InstrPos(al), "Action is not taken from the outcome's VerificationLevel.Enforcement but from "+md)
 					continue
 				}
+				seenTypes[constString(tc)] = true
 				c.OK(key, rule, w.InstrPos(al))
 			}
 		}
 	}
 	_ = n
+	// vacuity guard by meaning, not by site count: every validation type has at least one well-paired result
+	var missing []string
+	for _, name := range []string{"TypeIntegrity", "TypeAuthenticity", "TypeAuthenticTimestamp", "TypeExpiry", "TypeRevocation"} {
+		v, _ := w.constString("verifier/trustpolicy", name)
+		if v == "" || !seenTypes[fmt.Sprintf("%q", v)] {
+			missing = append(missing, name)
+		}
+	}
+	if len(missing) > 0 {
+		c.Unk("pairing/#types", "vacuity guard: each of the five validation types has at least one ValidationResult allocation with the paired action", "-", "no well-paired result for: "+strings.Join(missing, ", "))
+	}
 }
 
 func ordinalIn(fn *ssa.Function, target ssa.Instruction) int {
@@ -825,7 +839,8 @@ func c02Plugin(c *Ctx, F *ssa.Function, getCall *ssa.Call) {
 		var mv *ssa.Call
 		for _, ci := range allCalls(F) {
 			if call, ok := ci.(*ssa.Call); ok {
-				if g := staticCallee(call); g != nil && w.IsProductFn(g) && mentionsConst(w, g, "io.cncf.notary.verificationPluginMinVersion") && g.Signature.Results().Len() == 2 {
+				// the reader of the attribute: (…) -> (string, error), the first one on the way (later calls such as the plugin execution may mention the constant too)
+				if g := staticCallee(call); g != nil && w.IsProductFn(g) && mv == nil && g.Signature.Results().Len() == 2 && g.Signature.Results().At(0).Type().String() == "string" && isErrorType(g.Signature.Results().At(1).Type()) && mentionsConst(w, g, "io.cncf.notary.verificationPluginMinVersion") {
 					mv = call
 				}
 			}
@@ -1388,6 +1403,8 @@ func c02Critical(c *Ctx, F *ssa.Function, getCall *ssa.Call) {
 			c.OK("critical-attr-accounting/no-plugin-named", rule, w.FnPos(F))
 		}
 	}
+	// h0: the enumerator of attributes the plugin must process drops an attribute only for being one of the two plugin headers
+	c02Enumerator(c, F)
 	// h2: plugin executed — in the response consumer: per unprocessed-critical attribute, ProcessedAttributes must contain its key
 	{
 		rule := "critical-attribute accounting (plugin executed): every success exit of the response processing passes, for each critical extended attribute that is not a plugin header, ContainsAny(response.ProcessedAttributes, key)"
@@ -1469,4 +1486,179 @@ func c02RangesExtended(w *World, v ssa.Value) bool {
 		}
 	}
 	return false
+}
+
+// c02Enumerator: exactness of the filter that decides which extended attributes must be processed by the plugin.
+func c02Enumerator(c *Ctx, F *ssa.Function) {
+	w := c.W
+	h1, _ := w.constString("verifier", "HeaderVerificationPlugin")
+	h2, _ := w.constString("verifier", "HeaderVerificationPluginMinVersion")
+	// globals that hold exactly the two header constants and are never modified
+	headerLists := map[string]bool{}
+	if p := w.Pkg("verifier"); p != nil {
+		for _, n := range p.Pkg.Scope().Names() {
+			v, ok := p.Pkg.Scope().Lookup(n).(*types.Var)
+			if !ok {
+				continue
+			}
+			e, pk := w.pkgVarInit("verifier", n)
+			cl, ok := e.(*ast.CompositeLit)
+			if !ok || len(cl.Elts) != 2 {
+				continue
+			}
+			vals := map[string]bool{}
+			for _, el := range cl.Elts {
+				if s, ok := constOfExpr(pk, el); ok {
+					vals[s] = true
+				}
+			}
+			if !(vals[h1] && vals[h2]) {
+				continue
+			}
+			gname := "global:ngo/verifier." + v.Name()
+			mutated := false
+			for _, fn := range w.Funcs {
+				if fn.Name() == "init" {
+					continue
+				}
+				for _, b := range fn.Blocks {
+					for _, in := range b.Instrs {
+						if st, ok := in.(*ssa.Store); ok && strings.HasPrefix(desc(st.Addr), gname) {
+							mutated = true
+						}
+					}
+				}
+			}
+			if !mutated {
+				headerLists[gname] = true
+			}
+		}
+	}
+	n := 0
+	for _, E := range w.moduleCallees(F) {
+		if E.Signature.Results().Len() != 1 || !strings.HasSuffix(E.Signature.Results().At(0).Type().String(), "signature.Attribute") {
+			continue
+		}
+		efi := w.Info(E)
+		for _, sl := range sliceLoops(E) {
+			xd := desc(sl.X)
+			if !strings.HasSuffix(xd, ".SignedAttributes.ExtendedAttributes") {
+				continue
+			}
+			n++
+			c.SeenFn(E.String())
+			// the append of the current element
+			var app *ssa.BasicBlock
+			lb := loopBlocks(sl.Header)
+			for bi := range lb {
+				for _, in := range E.Blocks[bi].Instrs {
+					if cc, ok := in.(*ssa.Call); ok {
+						if bi2, ok := cc.Call.Value.(*ssa.Builtin); ok && bi2.Name() == "append" && strings.Contains(desc(cc.Call.Args[1]), xd+"[") {
+							app = E.Blocks[bi]
+						}
+					}
+				}
+			}
+			rule := "enumerator exactness: an extended attribute is left out of the list the plugin must process only if its key is one of the two verification-plugin header constants (membership in the constant list or equality), never by a weaker test"
+			if app == nil {
+				c.Bad("critical-attr-accounting/enumerator-exact/"+fnName(E), rule, w.FnPos(E), "the loop does not append its element")
+				continue
+			}
+			isHeaderEdge := func(l string, _ *ssa.If, _ bool) bool {
+				if strings.HasPrefix(l, "T(call:ngo/internal/slices.Contains(") {
+					for g := range headerLists {
+						if strings.HasPrefix(l, "T(call:ngo/internal/slices.Contains("+g+",") && strings.Contains(l, xd+"[") {
+							return true
+						}
+					}
+				}
+				for _, h := range []string{h1, h2} {
+					if strings.HasPrefix(l, "EQ(") && strings.Contains(l, xd+"[") && strings.Contains(l, fmt.Sprintf("const:%q", h)) {
+						return true
+					}
+				}
+				return false
+			}
+			isNonString := func(l string, _ *ssa.If, _ bool) bool {
+				return strings.HasPrefix(l, "F(ok(assert("+xd+"[") && strings.HasSuffix(l, ".Key,string)))")
+			}
+			cut := efi.edgesMatching(isHeaderEdge)
+			nHeader := len(cut)
+			cutInto(efi, app, cut)
+			for e := range efi.edgesMatching(isNonString) {
+				cut[e] = true
+			}
+			start := []state{{sl.Body.Index, 0, -1}}
+			c.Evals += 2
+			if efi.reachHit(start, cut, map[int]bool{sl.Header.Index: true}) || nHeader == 0 {
+				c.Bad("critical-attr-accounting/enumerator-exact/"+fnName(E), rule, w.InstrPos(blockTerm(sl.Header)), "an attribute can be dropped without its key being one of the two plugin header constants (e.g. by a prefix or case-insensitive test)")
+			} else {
+				c.OK("critical-attr-accounting/enumerator-exact/"+fnName(E), rule, w.InstrPos(blockTerm(sl.Header)))
+			}
+			// are attributes with a non-string key dropped?
+			cut2 := efi.edgesMatching(isHeaderEdge)
+			cutInto(efi, app, cut2)
+			dropsNonString := efi.reachHit(start, cut2, map[int]bool{sl.Header.Index: true})
+			rule2 := "critical attributes with a non-text key (COSE integer labels) are accounted for: the enumerator keeps them, or every consumer of the plugin response fails on a critical attribute whose key is not a string"
+			if !dropsNonString {
+				c.OK("critical-attr-accounting/non-string-key", rule2+" (kept by the enumerator)", w.FnPos(E))
+				continue
+			}
+			// consumers: functions with the ProcessedAttributes loop
+			okAll, nCons := true, 0
+			site := w.FnPos(E)
+			for _, f := range w.moduleCallees(F) {
+				ffi := w.Info(f)
+				consumer := false
+				for _, sl2 := range sliceLoops(f) {
+					if c02RangesExtendedVia(w, sl2.X, E) {
+						labels, _ := ffi.mustPassBetween([]int{sl2.Body.Index}, map[int]bool{sl2.Header.Index: true})
+						if _, h := hasLabel(labels, "T(call:ngo/internal/slices.ContainsAny(", ".ProcessedAttributes,"); h {
+							consumer = true
+						}
+					}
+				}
+				if !consumer {
+					continue
+				}
+				nCons++
+				site = w.FnPos(f)
+				found := false
+				for _, sl2 := range sliceLoops(f) {
+					x2 := desc(sl2.X)
+					if !strings.HasSuffix(x2, ".SignedAttributes.ExtendedAttributes") {
+						continue
+					}
+					sel := func(l string, _ *ssa.If, _ bool) bool {
+						return (strings.HasPrefix(l, "T(ok(assert("+x2+"[") && strings.HasSuffix(l, ".Key,string)))")) ||
+							(strings.HasPrefix(l, "F("+x2+"[") && strings.HasSuffix(l, ".Critical)"))
+					}
+					lr := loopRef{Header: sl2.Header, Body: sl2.Body, Exit: sl2.Exit, X: sl2.X}
+					blocked, ne := iterBlocked(ffi, &lr, Mode{Kind: mErr}, sel)
+					cutH := map[edgeKey]bool{}
+					cutInto(ffi, sl2.Header, cutH)
+					c.Evals += 2
+					if blocked && ne >= 2 && ffi.successWitness(Mode{Kind: mErr}, entryState(), cutH) == nil {
+						found = true
+					}
+				}
+				if !found {
+					okAll = false
+				}
+			}
+			if nCons == 0 {
+				okAll = false
+			}
+			c.Check(okAll, "critical-attr-accounting/non-string-key", rule2, site, "the enumerator leaves out attributes whose key is not a string and the response consumer does not fail on a critical one: a COSE signature with a critical integer-labelled attribute that names an executed plugin is accepted with the attribute processed by nothing")
+		}
+	}
+	if n == 0 {
+		c.Unk("critical-attr-accounting/enumerator-exact", "anchor: the function listing the extended attributes the plugin must process", w.FnPos(F), "not found")
+	}
+}
+
+// c02RangesExtendedVia: v is the result of a call of E.
+func c02RangesExtendedVia(w *World, v ssa.Value, E *ssa.Function) bool {
+	c := callOf(v)
+	return c != nil && staticCallee(c) == E
 }
